@@ -32,7 +32,8 @@ PowerOk(r) == /\ r.level \in 0..MaxRaw
 Close1(x, y) == x - y \in -1..1
 HueClose(x, y) == Close1(x, y) \/ (x <= 1 /\ y >= MaxRaw - 1) \/ (y <= 1 /\ x >= MaxRaw - 1)
 PairOk(r) == /\ r.a[4] = r.b[4]                                     \* kelvin is never altered
-             /\ Close1(r.msa[1] * Base + r.msa[2], r.msb[1] * Base + r.msb[2])
+             /\ LET a == <<r.msa[1], r.msa[2]>>  b == <<r.msb[1], r.msb[2]>>          \* durations as limb pairs: no product
+                IN  a = b \/ a = BigInc(b) \/ b = BigInc(a)                              \* (a large one would overflow TLC's integers)
              /\ r.usa - r.usb \in -2..2
              /\ Close1(r.a[3], r.b[3])
              /\ IF r.rgb                                               \* compared as colours
